@@ -443,7 +443,8 @@ reg("Polyline.join", [], [{}], lambda A, S: type(S[0]).join(S[0], S[0], is_close
 
 # ---- CompositeTransform / CoordinateManager -------------------------------------------------------
 reg("CompositeTransform.__call__", [("points", "f")], [{"points": P3}, {"points": K3}],
-    lambda A, S: S(A["points"], from_range=(0, 2), reverse=True), selfs=["composite"], stack=dict(stacked=["points"]))
+    lambda A, S: S(A["points"], from_range=(0, 2), reverse=True), selfs=["composite", "composite_empty"],
+    stack=dict(stacked=["points"]))
 reg("CompositeTransform.append_transform", [("forward", "m44"), ("reverse", "m44")],
     [{"forward": (4, 4), "reverse": None}, {"forward": (4, 4), "reverse": (4, 4)}], meth("append_transform", "forward", "reverse"),
     selfs=["composite"])
